@@ -372,7 +372,7 @@ class C03(RunSpec):
             # local searches that make no iteration at all (flat objective): whatever the deme does then must still be counted
             p.update({"fams": ["plateau", "constant", "plateau"], "leaf": _cycle(["local", "local_maxiter"], idx // 10), "levels": [2, 3], "allow_cutoff": False})
         if idx % 7 == 6:
-            p = {"kind": "minimize", "dim": (2, 4), "budget": "maxfun"}
+            p = {"kind": "minimize", "dim": (2, 4), "budget": "maxfun", "vertex_collapse": idx % 21 == 20}
         return p
 
     def make_case(self, seed, idx, tier):
@@ -389,6 +389,7 @@ class C03(RunSpec):
             ("engine.local", 1, "local deme"),
             ("C03.cutoff_exhausted_seen", 1, "budget exhausted"),
             ("C03.minimize_nfev_checked", 1, "minimize runs"),
+            ("C03.minimize_runs_with_5_or_more_repeated_points", 1, "minimize() runs in which the objective was called >= 5 times at a point it had been called at before"),
             ("C03.local_deme_without_any_iteration", 2, "local deme whose search made no iteration"),
         ]
         return fl
@@ -436,6 +437,12 @@ class C04(RunSpec):
             p = {"kind": "minimize", "dim": (2, 4), "pair": True}
         return p
 
+    def make_case(self, seed, idx, tier):
+        d = super().make_case(seed, idx, tier)
+        if idx % 4 == 2 and d.get("kind") == "tree":
+            d["peek_best_at_every_consultation"] = True
+        return d
+
     def run_case(self, desc):
         if desc.get("pair"):
             from .monitors.twins import run_budget_pair
@@ -446,6 +453,7 @@ class C04(RunSpec):
     def floors(self, tier):
         return [
             ("direction.max", 10, "maximisation runs"),
+            ("C04.best_read_inside_a_metaepoch", 100, "reads of the best accessors from inside a metaepoch (as a user-defined stop condition does)"),
             ("C04.best_ever_not_in_any_current_population", 1, "best-ever individual no longer in any current population"),
             ("C04.budget_pairs", 1, "budget pairs"),
             ("objective.pit", 2, "objective with good-direction infinite values"),
